@@ -12,7 +12,7 @@ import random
 from .. import apps, common, refhttp, seq
 from ..evidence import Run
 
-EXC_CLASSES = ["ValueError", "OSError", "ConnectionResetError", "KeyboardInterrupt", "SystemExit", "GeneratorExit"]
+EXC_CLASSES = ["ValueError", "OSError", "ConnectionResetError", "KeyboardInterrupt", "SystemExit", "GeneratorExit", "ChainedValueError", "ChainedOSError"]
 _envs = {}
 
 
@@ -231,7 +231,7 @@ def judge(case, res):
 def _family(cls):
     if cls in ("KeyboardInterrupt", "SystemExit", "GeneratorExit"):
         return "BaseException"
-    if cls in ("OSError", "ConnectionResetError", "BrokenPipeError"):
+    if cls in ("OSError", "ConnectionResetError", "BrokenPipeError", "ChainedOSError"):
         return "OSError"
     return "Exception"
 
